@@ -345,6 +345,12 @@ def check(prop, tier, seed):
             cov["drivers"].append({"driver": d["name"], "events": d["events"], "scenarios": d["summary"].get("scenarios"),
                                    "by_kind": d["summary"].get("by_kind")})
             for g, (ev, app, bad) in d["evals"].items():
+                if prop_of(g) in ("M", "S"):
+                    # model-conformance (M_) and beyond-the-properties (S_) guards: reported, never violations
+                    c = cov.setdefault("spec_conformance", {}).setdefault(g, [0, 0, 0])
+                    c[0] += ev; c[1] += app; c[2] += bad
+                    if bad:
+                        log(f"note: {g} failed on {bad} event(s) of driver {d['name']} (specification and implementation disagree on a rule that is not one of the listed properties)")
                 if prop_of(g) == prop:
                     c = cov["guards"].setdefault(g, [0, 0, 0])
                     c[0] += ev; c[1] += app; c[2] += bad
